@@ -139,14 +139,32 @@ func ReadWithDirectory(r io.ReaderAt, size int64, cd []byte) (*Directory, error)
 			}
 			if tag == zip64ExtraID {
 				e := extra[4 : 4+size]
-				if needUSize && size >= 8 {
+				if size < zip64ExtraLen {
+					// only the values whose 32-bit fields are saturated are
+					// present, in this order
+					if needUSize && len(e) >= 8 {
+						f.UncompressedSize = binary.LittleEndian.Uint64(e)
+						e = e[8:]
+					}
+					if needCSize && len(e) >= 8 {
+						f.CompressedSize = binary.LittleEndian.Uint64(e)
+						e = e[8:]
+						needCSize = false
+					}
+					if needOffset && len(e) >= 8 {
+						f.Offset = binary.LittleEndian.Uint64(e)
+						needOffset = false
+					}
+					break
+				}
+				if needUSize {
 					f.UncompressedSize = binary.LittleEndian.Uint64(e)
 				}
-				if needCSize && size >= 16 {
+				if needCSize {
 					f.CompressedSize = binary.LittleEndian.Uint64(e[8:])
 					needCSize = false
 				}
-				if needOffset && size >= 24 {
+				if needOffset {
 					f.Offset = binary.LittleEndian.Uint64(e[16:])
 					needOffset = false
 				}
